@@ -11,11 +11,15 @@ func init() { propFuncs["C14"] = checkC14 }
 
 const compT = "completion.Engine"
 
-// lenOfField: v == len(<load of tn.field>) (string or slice)
+// lenOfField: v measures <load of tn.field>: len(x) or utf8.RuneCountInString(x)
+// (which unit is right is the unit rule's business, not this shape rule's).
 func lenOfField(v ssa.Value, tn, field string) bool {
 	cl, ok := v.(*ssa.Call)
 	if !ok {
 		return false
+	}
+	if calleeName(cl) == "unicode/utf8.RuneCountInString" && len(cl.Call.Args) == 1 && isFieldLoad(cl.Call.Args[0], tn, field) {
+		return true
 	}
 	b, ok := cl.Call.Value.(*ssa.Builtin)
 	return ok && b.Name() == "len" && len(cl.Call.Args) == 1 && isFieldLoad(cl.Call.Args[0], tn, field)
@@ -220,6 +224,9 @@ func checkC14(c *Ctx) {
 		r.Check(ok, "C14.inserted-is-candidate", fnName(PS)+":returns-selected.Value", p.Pos(PS.Pos()), "returns selected.Value (or empty)", "prepareSuffix returns something other than the selected candidate's value")
 	}
 
+	// ---- units (K7)
+	unitRule(c, "C14.units", []string{"(*completion.Engine).insertCandidate", "(*completion.Engine).acceptCandidate", "(*completion.Engine).prepareSuffix", "(*completion.Engine).TrimSuffix", "(*completion.Engine).setPrefix", "(*completion.Engine).setSuffix", "(*completion.Engine).cancelCompletedLine"}, 4)
+
 	// ---- cancel restores (K3)
 	r.Rule("C14.cancel-restores", "K3", "cancelCompletedLine and Cancel(inserted=true) overwrite the virtual line from *e.line and the virtual cursor from cursor.Pos()", 3)
 	restores := func(f *ssa.Function, needFact func(map[Fact]bool) bool) (bool, bool) {
@@ -313,6 +320,30 @@ func checkC14(c *Ctx) {
 			}
 		}
 		r.Check(n == 2 && okCancel, "C14.abort-continues", fnName(AB)+":cancel-branch", p.Pos(AB.Pos()), "active completion → ResetForce; return", fmt.Sprintf("the cancelling branch of abort is not `ResetForce(); return` on both the AutoCompleting and IsInserting tests (tests found: %d)", n))
+	}
+
+	// ---- a forced reset drops the candidate unless completion is auto-forced (K5)
+	r.Rule("C14.resetforce-drops", "K5", "ResetForce calls Cancel(inserted = !autoForce, …): outside forced auto-completion an inserted candidate is dropped, not committed", 1)
+	if RF := p.Func("(*completion.Engine).ResetForce"); RF != nil {
+		r.Fn(fnName(RF))
+		n := 0
+		for _, call := range callsTo(RF, false, "(*completion.Engine).Cancel") {
+			n++
+			arg := call.Common().Args[1]
+			ok := false
+			if u, isU := arg.(*ssa.UnOp); isU && u.Op == token.NOT && isFieldLoad(u.X, compT, "autoForce") {
+				ok = true
+			}
+			if b, isB := constBool(arg); isB && b {
+				ok = true
+			}
+			r.Check(ok, "C14.resetforce-drops", fnName(RF)+":Cancel(inserted)", p.IPos(call), "inserted = !autoForce", "ResetForce no longer passes inserted = !autoForce to Cancel: Ctrl-C in an incremental search inside the menu commits the selected candidate instead of restoring the original buffer")
+		}
+		if n == 0 {
+			r.Bad("C14.resetforce-drops", fnName(RF)+":Cancel(inserted)", p.Pos(RF.Pos()), "ResetForce no longer cancels the inserted candidate")
+		}
+	} else {
+		r.Unk("C14.resetforce-drops", "(*completion.Engine).ResetForce", "-", "anchor not found")
 	}
 
 	// ---- UpdateInserted between keymaps (K1)
